@@ -245,6 +245,19 @@ theorem C08_merge_imports_disjoint (fs : List File)
     (h : ((fs.flatMap (·.imports)).map Import.key).Nodup) : mergeImports fs = fs.flatMap (·.imports) := by
   rw [mergeImports_eq, specImports, firstOcc_of_nodup _ h]
 
+def wStray : File :=
+  { pkg := "rc", comments := [⟨0, 40, "Code generated"⟩, ⟨60, 80, "ShootRest exists"⟩, ⟨110, 118, "noop"⟩],
+    imports := [], decls := [⟨false, 81, 120, "func (c *client) ShootRest()"⟩, ⟨false, 122, 200, "func init()"⟩] }
+
+/-- F_strayComment: the 10-byte proximity rule of `attachCommentsForDecl` also catches a comment that sits at the
+    end of the PREVIOUS declaration: the `/*noop*/` inside `ShootRest() { /*noop*/ }` is printed once more in front
+    of `func init()` in every all-in-one file of `shoot rest` -/
+theorem C08_F_strayComment_witness :
+    region [wStray] = "F_strayComment" ∧
+    (merge [wStray]).out?.map (·.items) = some [⟨["ShootRest exists", "noop"], "func (c *client) ShootRest()"⟩, ⟨["noop"], "func init()"⟩] ∧
+    specItems [wStray] = [⟨["ShootRest exists", "noop"], "func (c *client) ShootRest()"⟩, ⟨[], "func init()"⟩] := by
+  decide
+
 /-- composition: the all-in-one file of a combined run consists of the declarations (with their own doc
     comments) of the one-type files that separate processes write, in the same order -/
 theorem C08_allinone {σ τ ω : Type} (m : Machine σ τ ω) (hind : StateIndep m) (hst : ∀ o, m.stale o = true)
